@@ -302,6 +302,41 @@ pub fn check_real_point(p: &Pt, cx: &mut Cx, w: &mut World) {
             }
         }
     }
+    // a fee update in the middle of the pool's life: every later quote uses exactly the new triple
+    {
+        let fees = fee_alphabet();
+        let idx = fees.iter().position(|f| f.protocol == p.fee.protocol && f.swap == p.fee.swap && f.burn == p.fee.burn).unwrap_or(0);
+        for step in [1usize, 5] {
+            let f2 = fees[(idx + step) % fees.len()];
+            let upd = w.exec(
+                OWNER,
+                &h.hub.factory,
+                &white_whale_std::pool_network::factory::ExecuteMsg::UpdatePairConfig { pair_addr: h.pair.addr.clone(), owner: None, fee_collector_addr: None, pool_fees: Some(f2.pool()), feature_toggle: None },
+                &[],
+            );
+            if upd.is_err() {
+                cx.count("real:fee_update_rejected");
+                continue;
+            }
+            if let Ok((res, _)) = pair_pool(w, &h.pair.addr) {
+                let q = Pt { offer_pool: res[0], ask_pool: res[1], offer: p.offer, fee: f2, dec: p.dec };
+                let sim: Result<SimulationResponse, String> = w.query(&h.pair.addr, &PairQuery::Simulation { offer_asset: asset(&a0, p.offer) });
+                match (&sim, &eval_real(&q)) {
+                    (Ok(s), Ok(Ok(c))) => {
+                        cx.count("real:sim_after_fee_update_ok");
+                        cx.check(
+                            "fees.each_is_floor_share_times_gross",
+                            s.return_amount == c.return_amount && s.swap_fee_amount == c.swap_fee_amount && s.protocol_fee_amount == c.protocol_fee_amount && s.burn_fee_amount == c.burn_fee_amount,
+                            || format!("after updating the pool fees to {:?}: Simulation {:?} != compute_swap with the new fees {:?}", f2, s, c),
+                        );
+                    }
+                    (Ok(s), _) => cx.check("fees.each_is_floor_share_times_gross", false, || format!("after updating the pool fees to {:?}: Simulation gave {:?} but compute_swap with the new fees fails", f2, s)),
+                    (Err(e), Ok(Ok(c))) => cx.check("fees.each_is_floor_share_times_gross", false, || format!("after updating the pool fees to {:?}: Simulation failed ({}) but compute_swap with the new fees gives {:?}", f2, e, c)),
+                    _ => {}
+                }
+            }
+        }
+    }
 }
 
 pub fn run(tier: &str, seed: u64) -> i32 {
@@ -335,7 +370,7 @@ pub fn run(tier: &str, seed: u64) -> i32 {
         &[0, m / 2, m - 1],
     );
     ev.validated = ev.counters.get("real:sim_ok").cloned().unwrap_or(0);
-    for c in ["outcome:ok", "nontrivial:protocol_fee>0", "roundtrip:evaluated", "real:sim_ok", "real:roundtrip_executed", "real:sim_after_swaps_ok"] {
+    for c in ["outcome:ok", "nontrivial:protocol_fee>0", "roundtrip:evaluated", "real:sim_ok", "real:roundtrip_executed", "real:sim_after_swaps_ok", "real:sim_after_fee_update_ok"] {
         ev.require_counter(c, 100);
     }
     ev.finish()
